@@ -517,16 +517,14 @@ func (fb *FullBlockImage) Resize(w int, h int) {
 		y *= 2
 
 		top := img.At(x, y)
-		r, g, b, a := averageColor(top)
+		r, g, b, visible := averageColor(top)
 		if y+1 < img.Bounds().Max.Y {
 			// the last row of an image with an odd height covers a
 			// single pixel
-			r, g, b, a = averageColor(top, img.At(x, y+1))
+			r, g, b, visible = averageColor(top, img.At(x, y+1))
 		}
 		switch {
-		// TODO: What is the right value for alpha that we should set
-		// the background color = 0??
-		case a < 50:
+		case !visible:
 			fb.cells[i] = 0
 		default:
 			fb.cells[i] = RGBColor(r, g, b)
@@ -562,20 +560,28 @@ func toRGB(c color.Color) (uint8, uint8, uint8, uint8) {
 	return r, g, b, a
 }
 
-// averageColor computes the average color from all inputs and returns it's rgb
-// value
-func averageColor(c color.Color, colors ...color.Color) (uint8, uint8, uint8, uint8) {
-	var r, g, b, a int
+// averageColor computes the average color from all inputs that are not
+// transparent enough to be left to the default background color, and returns
+// it's rgb value. visible is false when every input is that transparent
+func averageColor(c color.Color, colors ...color.Color) (r uint8, g uint8, b uint8, visible bool) {
+	var rSum, gSum, bSum, n int
 	colors = append(colors, c)
 	for _, col := range colors {
 		rA, gA, bA, aA := toRGB(col)
-		r += int(rA)
-		g += int(gA)
-		b += int(bA)
-		a += int(aA)
+		if aA < transparentEnough {
+			// The color of this one is not to be seen, as in a
+			// HalfBlockImage
+			continue
+		}
+		rSum += int(rA)
+		gSum += int(gA)
+		bSum += int(bA)
+		n += 1
 	}
-	n := len(colors)
-	return uint8(r / n), uint8(g / n), uint8(b / n), uint8(a / n)
+	if n == 0 {
+		return 0, 0, 0, false
+	}
+	return uint8(rSum / n), uint8(gSum / n), uint8(bSum / n), true
 }
 
 // HalfBlockImage is an image composed of half block characters.
